@@ -3,7 +3,7 @@ from __future__ import annotations
 
 import ast
 
-from sa.astx import call_name, dotted, lincmp, walk_local
+from sa.astx import call_name, dotted, lincmp, src, walk_local
 from sa.effects import class_accesses
 from sa.selftest import Mutant, Silent
 from sa.source import AnalysisError, methods, mro_lookup
@@ -373,6 +373,7 @@ def _check_run(ctx, mod):
             regs.append((c, root))
     on_acq = [(c, r) for c, r in regs if isinstance(r, ast.Call) and call_name(r) == "self.acquire"]
     executors = []
+    exec_names = {}
     for c, r in on_acq:
         kind = c.func.attr
         target = c.args[0] if c.args else None
@@ -381,9 +382,26 @@ def _check_run(ctx, mod):
             fn = next((s for s in ast.walk(run) if isinstance(s, (ast.FunctionDef, ast.AsyncFunctionDef)) and s.name == target.id and s is not run), None)
         elif isinstance(target, ast.Lambda):
             fn = target
+        names = None
+        if fn is None and isinstance(target, ast.Attribute) and (dotted(target) or "").startswith("self.") and (dotted(target) or "").count(".") == 1:
+            # a closure lifted to a bound method, run()'s values handed over as extra addCallback arguments: the same executor,
+            # provided it is not itself a releasing callback; map the extra arguments to its parameters
+            m = mro_lookup(mod, cls, target.attr)
+            if m and isinstance(m[1], ast.FunctionDef) and not any(isinstance(x, ast.Call) and call_name(x) == "self.release" for x in ast.walk(m[1])) \
+                    and any(isinstance(x, ast.Name) and x.id == "maybeDeferred" for x in ast.walk(m[1])):
+                ps = [a.arg for a in m[1].args.posonlyargs + m[1].args.args][2:]          # after self and the callback result
+                extra = list(c.args[1:])
+                bound = {p_: src(a_) for p_, a_ in zip(ps, extra)}
+                bound.update({k.arg: src(k.value) for k in c.keywords if k.arg})
+                inv = {v: k for k, v in bound.items()}
+                if kind in ("addCallback", "addBoth", "addErrback") and not any(isinstance(a_, ast.Starred) for a_ in extra):
+                    fn = m[1]
+                    names = (inv.get(fname), inv.get(va) if va else None, inv.get(kwa) if kwa else None)
+                    ctx.functions.add(f"{DEFER}:_ConcurrencyPrimitive.{target.attr}")
         if fn is None:
             continue
         executors.append(fn)
+        exec_names[id(fn)] = names or (fname, va, kwa)
         ok = kind == "addCallback" or (kind == "addCallbacks" and len(c.args) == 1 and not any(k.arg == "errback" for k in c.keywords))
         ctx.check(ok, "run/executes-only-when-acquired", ctx.construct(qr, c),
                   f"the function is registered with {kind}: a cancelled (failed) acquisition would still run it and release() "
@@ -412,8 +430,14 @@ def _check_run(ctx, mod):
 
     # (2) executor: f only through maybeDeferred(f, *args, **kwargs), result .addBoth(self.<releaser>), chain returned
     releasers = set()
+    run_names = (fname, va, kwa)
     for ex in executors:
-        qe = qr + ".<locals>." + getattr(ex, "name", "<lambda>")
+        fname, va, kwa = exec_names.get(id(ex), run_names)     # the names run()'s f / *args / **kwargs go by inside this executor
+        lifted = mod.enclosing_function(ex) is not run and not isinstance(ex, ast.Lambda)
+        qe = (q + "." + ex.name) if lifted else qr + ".<locals>." + getattr(ex, "name", "<lambda>")
+        if fname is None:
+            ctx.violation("run/passes-arguments", qe, "run()'s function is not handed to the executor method")
+            continue
         body_nodes = list(ast.walk(ex))
         direct = [c for c in body_nodes if isinstance(c, ast.Call) and isinstance(c.func, ast.Name) and c.func.id == fname]
         ctx.check(not direct, "run/function-via-maybeDeferred", qe,
@@ -658,4 +682,26 @@ SILENT += [
                  (DEFER, "    def _releaseAndReturn(self, r: _T) -> _T:\n        self.release()\n        return r\n",
                   "    def _releaseAndReturn(self, passthrough: _T) -> _T:\n        self.release()\n        return passthrough\n"),
                  (DEFER, "        return succeed(False)\n", "        notConsumed = succeed(False)\n        return notConsumed\n")]),
+]
+
+SILENT += [
+    # the closure lifted to a private method, run()'s function / args / kwargs travelling as extra addCallback arguments
+    Silent("executor-lifted-to-method", DEFER, _EXEC, "            raise NotImplementedError\n",
+           more=[(DEFER, "        return self.acquire().addCallback(execute)", "        return self.acquire().addCallback(self._whileHeld, f, args, kwargs)"),
+                 (DEFER, "    def _releaseAndReturn(self, r: _T) -> _T:",
+                  "    def _whileHeld(self, _held, fn, positional, named):\n        return maybeDeferred(fn, *positional, **named).addBoth(self._releaseAndReturn)\n\n"
+                  "    def _releaseAndReturn(self, r: _T) -> _T:")]),
+]
+MUTANTS += [
+    # the same violation must be seen through the lifted executor
+    Mutant("lifted-executor-releases-only-on-success", DEFER, _EXEC, "            raise NotImplementedError\n", expect_rule="run/release-on-both-outcomes",
+           more=[(DEFER, "        return self.acquire().addCallback(execute)", "        return self.acquire().addCallback(self._whileHeld, f, args, kwargs)"),
+                 (DEFER, "    def _releaseAndReturn(self, r: _T) -> _T:",
+                  "    def _whileHeld(self, _held, fn, positional, named):\n        return maybeDeferred(fn, *positional, **named).addCallback(self._releaseAndReturn)\n\n"
+                  "    def _releaseAndReturn(self, r: _T) -> _T:")]),
+    Mutant("lifted-executor-registered-with-addBoth", DEFER, _EXEC, "            raise NotImplementedError\n", expect_rule="run/executes-only-when-acquired",
+           more=[(DEFER, "        return self.acquire().addCallback(execute)", "        return self.acquire().addBoth(self._whileHeld, f, args, kwargs)"),
+                 (DEFER, "    def _releaseAndReturn(self, r: _T) -> _T:",
+                  "    def _whileHeld(self, _held, fn, positional, named):\n        return maybeDeferred(fn, *positional, **named).addBoth(self._releaseAndReturn)\n\n"
+                  "    def _releaseAndReturn(self, r: _T) -> _T:")]),
 ]
